@@ -48,9 +48,16 @@ def normalise(v):
             seen[e["f"]] = seen.get(e["f"], 0) + 1
             relidx[(e["f"], seen[e["f"]])] = idx
     pos = dict(relidx)
+    in_render = False
     for idx, e in enumerate(hist):
+        if e["k"] == "renter":
+            in_render = True
+        elif e["k"] == "rexit":
+            in_render = False
         if e["k"] == "recv":
-            j = next((q for q in range(idx, len(hist)) if hist[q]["k"] == "senter"), idx)
+            # main took the batch while the ticker renders (it then waits for the mutex): deliver it
+            # during that render; otherwise just before its first Sample
+            j = idx if in_render else next((q for q in range(idx, len(hist)) if hist[q]["k"] == "senter"), idx)
             pos[(e["f"], e["i"])] = j
     matching = {(e["f"], e["i"]) for e in hist if e["k"] == "recv"}
     for f in range(1, len(files) + 1):
@@ -109,6 +116,8 @@ def features(script, files):
                 fs.add("input-during-render")
                 if all(nrel.get(f, 0) == n for f, n in total_b.items()):
                     fs.add("end-of-input-during-render")
+                    if any(k for k in files[e["f"] - 1][-1]):
+                        fs.add("last-matches-arrive-during-render")
             if depth_s:
                 fs.add("input-during-sample")
     ks = [e["k"] for e in script if e["k"] != "rel"]
@@ -317,6 +326,8 @@ def check(run):
         scen.append({"t": i + 1, "src": "tlc", "mode": "files", "workers": c["workers"], "readers": c["readers"],
                      "batch": c["batch"], "buf": c["buf"], "files": c["files"], "script": c["script"],
                      "status": i % 2 == 0})
+        if "input-during-render" in c["features"]:
+            scen[-1]["rsleep"] = {"*": 150}   # keep that render open well beyond the delivery
     featcount = {}
     for c in chosen:
         for f in c["features"]:
@@ -324,7 +335,7 @@ def check(run):
     run.cov["b1_schedules"] = {"simulated_distinct": len(cands), "replayed": len(chosen), "features": featcount}
     # ---- B2: seeded delay scenarios
     seeded = os.path.join(run.scratch, "c05-seeded.ndjson")
-    run.drv(["gen", "-n", 21 if quick else 140, "-out", seeded])
+    run.drv(["gen", "-n", 24 if quick else 160, "-out", seeded])
     for line in open(seeded):
         scen.append(json.loads(line))
     scen_path = os.path.join(run.scratch, "c05-scen.ndjson")
@@ -338,7 +349,7 @@ def check(run):
 
     # ---- race clause: the same driver under the race detector (subset in quick), the stress, the CLI
     race_scen = os.path.join(run.scratch, "c05-race-scen.ndjson")
-    sub = [s for s in scen if s["src"] != "tlc"][:7 if quick else 70] + [s for s in scen if s["src"] == "tlc"][:5 if quick else 60]
+    sub = [s for s in scen if s["src"] != "tlc"][:8 if quick else 80] + [s for s in scen if s["src"] == "tlc"][:5 if quick else 60]
     with open(race_scen, "w") as f:
         for s in sub:
             f.write(json.dumps(s, separators=(",", ":")) + "\n")
